@@ -122,6 +122,8 @@ pub struct SubReport {
     pub evaluations: u64,
     pub nontrivial: HashSet<u64>,
     pub samples: Vec<Value>,
+    /// first evaluated case (used as a sample if no non-trivial one exists)
+    pub first_case: Option<Value>,
     pub classes: BTreeMap<String, u64>,
     pub exhaustive: bool,
     pub failure: Option<Failure>,
@@ -137,6 +139,7 @@ impl SubReport {
             evaluations: 0,
             nontrivial: HashSet::new(),
             samples: vec![],
+            first_case: None,
             classes: BTreeMap::new(),
             exhaustive: false,
             failure: None,
@@ -147,6 +150,9 @@ impl SubReport {
 
     pub fn record<T: Hash + Serialize>(&mut self, case: &T, info: &CaseInfo) {
         self.evaluations += 1;
+        if self.first_case.is_none() {
+            self.first_case = Some(serde_json::to_value(case).unwrap_or(Value::Null));
+        }
         for c in &info.classes {
             *self.classes.entry((*c).to_string()).or_insert(0) += 1;
         }
@@ -358,7 +364,12 @@ pub fn finish(ctx: &Ctx, verdict: Verdict) -> i32 {
     for s in &verdict.subs {
         distinct += s.nontrivial.len() as u64;
         for smp in s.samples.iter().take(2) {
-            samples.push(json!({"sub": s.name, "case": truncate_sample(smp.clone())}));
+            samples.push(json!({"sub": s.name, "nontrivial": true, "case": truncate_sample(smp.clone())}));
+        }
+        if s.samples.is_empty() {
+            if let Some(fc) = &s.first_case {
+                samples.push(json!({"sub": s.name, "nontrivial": false, "case": truncate_sample(fc.clone())}));
+            }
         }
         any_exhaustive |= s.exhaustive;
         all_exhaustive &= s.exhaustive;
